@@ -333,11 +333,13 @@ def cut_history(ctx):
         for p in ctx.walk(hb).paths:
             gs, r = summarize(p)
             r = strip_ver(r)
-            if any(g.endswith("=Some") for g in gs):
-                std = std and r.startswith("!HashSet::insert(") and r.endswith(", a3)")
+            ins = [e for e in p.effects if e[0] == "call" and e[1] in ("HashSet::insert", "HashMap::insert")]
+            if r.startswith("!HashSet::insert(") and r.endswith(", a3)"):
+                pass  # not(first insertion of the position into the set kept for this repeat node)
+            elif r == "false" and len(ins) == 2 and not any(g.endswith("=Some") for g in gs):
+                pass  # a node seen for the first time: its set is created with the position in it
             else:
-                ins = [e for e in p.effects if e[0] == "call" and e[1] in ("HashSet::insert", "HashMap::insert")]
-                std = std and r == "false" and len(ins) == 2
+                std = False
     key = "zero-iteration-suppressed|repeat-node-and-position-seen-before" if std else "zero-iteration-suppressed|other-discipline"
     _rec(d, key, False, "the zero-iteration alternative of a greedy repeat with min == 0 is suppressed when %s: an alternative with a possibly different continuation is dropped, e.g. '^(?:(a)|(.))(?:bc|d)*\\1$' does not match 'a'" % sorted(guarded), b.loc())
     return _emit(d)
